@@ -38,7 +38,12 @@ You have to disable enum or useUnderlyingTypeMethods to resolve the setting conf
 
 	if sourceUnderlying {
 		innerSource = xtype.TypeOf(source.NamedType.Underlying())
-		sourceID = xtype.OtherID(innerSource.TypeAsJen().Call(sourceID.Code))
+		innerType := innerSource.TypeAsJen()
+		if innerSource.Pointer || innerSource.Chan || innerSource.Signature {
+			// *T(x), <-chan T(x) and func()(x) do not parse as conversions
+			innerType = jen.Parens(innerType)
+		}
+		sourceID = xtype.OtherID(innerType.Call(sourceID.Code))
 	}
 
 	if targetUnderlying {
